@@ -1,6 +1,7 @@
 package props
 
 import (
+	"fmt"
 	"sync"
 
 	gots "github.com/Comcast/gots/v2"
@@ -69,11 +70,62 @@ func mkDescriptorMoved(v c19Val) scte35.SegmentationDescriptor {
 	return d
 }
 
+const c19Adj = 100 // pts_adjustment of the "adjusted" realisation of a signal time
+
+// mkDescriptorAdjusted realises the same signal time as pts_time + pts_adjustment with a non-zero
+// adjustment (pts_time = PTS - 100 mod 2^33): where the value can be carried by a section the
+// descriptor comes out of the decoder, otherwise the adjustment is set through the API.
+func mkDescriptorAdjusted(v c19Val) scte35.SegmentationDescriptor {
+	t := (v.PTS - c19Adj) & (1<<33 - 1)
+	if !v.Sub || ref.S35HasSubFields(uint8(v.Type)) {
+		sec := ref.S35Canonical()
+		sec.CmdType = ref.S35CmdNull // a signal without a PTS (the decoder refuses a time_signal without time)
+		if v.HasPTS {
+			sec.CmdType = ref.S35CmdTime
+			sec.Time = ref.S35Time{Specified: true, PTS: t}
+			sec.PTSAdj = c19Adj
+		}
+		sec.Descs = []ref.S35Desc{{IsSeg: true, Tag: ref.S35SegTag, Identifier: ref.S35CUEI, Seg: ref.S35Seg{EventID: v.Event, Program: true, NotRestricted: true,
+			TypeID: uint8(v.Type), SegNum: v.Num, SegsExpected: v.Exp, HasSub: v.Sub, SubNum: v.SubNum, SubExpected: v.SubExp}}}
+		if sig, err := scte35.NewSCTE35(ref.S35Bytes(&sec)); err == nil && len(sig.Descriptors()) == 1 {
+			return sig.Descriptors()[0]
+		}
+		_, err := scte35.NewSCTE35(ref.S35Bytes(&sec)); panic(fmt.Sprintf("c19: reference section does not decode: %v % x", err, ref.S35Bytes(&sec)))
+	}
+	d := mkDescriptor(v)
+	if v.HasPTS {
+		d.SCTE35().SetPTS(gots.PTS(t))
+		d.SCTE35().SetAdjustPTS(gots.PTS(v.PTS))
+	}
+	return d
+}
+
+// mkDescriptorRetyped gives the descriptor its type late: it is built with another type (one that has
+// closing rules), attached, asked every question of the relation once, and only then retyped.
+func mkDescriptorRetyped(v c19Val, from int, probe scte35.SegmentationDescriptor) scte35.SegmentationDescriptor {
+	first := v
+	first.Type, first.Sub = from, false
+	d := mkDescriptor(first)
+	_, _, _, _ = d.CanClose(probe), probe.CanClose(d), d.Equal(probe), probe.Equal(d)
+	_, _, _ = d.IsIn(), d.IsOut(), d.TypeID()
+	d.SetTypeID(scte35.SegDescType(v.Type))
+	if v.Sub {
+		d.SetHasSubSegments(true)
+		d.SetSubSegmentNumber(v.SubNum)
+		d.SetSubSegmentsExpected(v.SubExp)
+	}
+	return d
+}
+
 type c19Grid struct {
 	vals  []c19Val
-	a, b  []scte35.SegmentationDescriptor // two independent object copies of the same values
+	a, b  []scte35.SegmentationDescriptor    // two independent object copies of the same values (created / moved between signals)
+	c     []scte35.SegmentationDescriptor    // third copy: signal time realised with a non-zero pts_adjustment (decoded where possible)
+	r     [2][]scte35.SegmentationDescriptor // copies that were retyped after having been queried (from 0x10 resp. 0x35; 0x30 resp. 0x37 for those types)
 	byTyp [256][]int
 }
+
+var c19RetypeFrom = [2][2]int{{0x10, 0x30}, {0x35, 0x37}}
 
 var (
 	c19CloseOnce sync.Once
@@ -87,6 +139,14 @@ func c19Build(vals []c19Val) *c19Grid {
 	for i, v := range vals {
 		g.a = append(g.a, mkDescriptor(v))
 		g.b = append(g.b, mkDescriptorMoved(v))
+		g.c = append(g.c, mkDescriptorAdjusted(v))
+		for k := range g.r {
+			from := c19RetypeFrom[k][0]
+			if from == v.Type {
+				from = c19RetypeFrom[k][1]
+			}
+			g.r[k] = append(g.r[k], mkDescriptorRetyped(v, from, g.a[0]))
+		}
 		g.byTyp[v.Type] = append(g.byTyp[v.Type], i)
 	}
 	return g
@@ -171,26 +231,36 @@ func c19CheckClose(c c19TypeCase) engine.Result {
 			res.Failf("IsIn-IsOut|both", "type %#x is both in and out", c.InType)
 		}
 		_, hasRules := ref.CloseRules[c.InType]
-		for _, i := range ins {
-			in := g.a[i]
-			vi := g.vals[i]
-			for j, open := range g.b {
-				vo := g.vals[j]
-				res.Evals++
-				got := in.CanClose(open)
-				want := c19RefCanClose(vi, vo)
-				if got != want {
-					kind := "table-cell"
-					if !hasRules {
-						kind = "type-without-rules"
+		// (incoming realisation, open realisation): created x moved is the plain table; the others vary how
+		// the descriptor got its type (retyped after queries) and how its signal carries the time
+		type pair struct {
+			in, open []scte35.SegmentationDescriptor
+			name     string
+		}
+		pairs := []pair{{g.a, g.b, ""}, {g.a, g.c, ",open-with-pts_adjustment"}, {g.c, g.b, ",incoming-with-pts_adjustment"}, {g.c, g.c, ",both-with-pts_adjustment"},
+			{g.r[0], g.b, ",incoming-retyped-after-queries"}, {g.r[1], g.c, ",incoming-retyped-after-queries"}, {g.a, g.r[0], ",open-retyped-after-queries"}, {g.a, g.r[1], ",open-retyped-after-queries"}}
+		for _, pr := range pairs {
+			for _, i := range ins {
+				in := pr.in[i]
+				vi := g.vals[i]
+				for j, open := range pr.open {
+					vo := g.vals[j]
+					res.Evals++
+					got := in.CanClose(open)
+					want := c19RefCanClose(vi, vo)
+					if got != want {
+						kind := "table-cell"
+						if !hasRules {
+							kind = "type-without-rules"
+						}
+						res.Failf("CanClose|"+kind+pr.name, "incoming %+v open %+v: CanClose=%v want %v", vi, vo, got, want)
+						if len(res.Fail) > 6 {
+							return
+						}
 					}
-					res.Failf("CanClose|"+kind, "incoming %+v open %+v: CanClose=%v want %v", vi, vo, got, want)
-					if len(res.Fail) > 6 {
-						return
+					if got {
+						res.Event("closable-pairs")
 					}
-				}
-				if got {
-					res.Event("closable-pairs")
 				}
 			}
 		}
@@ -218,16 +288,26 @@ func c19CheckEqual(c c19EqCase) engine.Result {
 		if got := a.Equal(a); got != va.HasPTS {
 			res.Failf("Equal|reflexive-iff-pts", "%+v: Equal(self)=%v", va, got)
 		}
-		for j := range g.vals {
+		for jj := 0; jj < 4*len(g.vals); jj++ {
+			j := jj % len(g.vals)
 			vb := g.vals[j]
 			b := g.b[j]
+			how := ""
+			switch jj / len(g.vals) {
+			case 1:
+				b, how = g.c[j], ",other-with-pts_adjustment"
+			case 2:
+				b, how = g.r[0][j], ",other-retyped-after-queries"
+			case 3:
+				b, how = g.r[1][j], ",other-retyped-after-queries"
+			}
 			res.Evals++
 			ab, ba := a.Equal(b), b.Equal(a)
 			if ab != ba {
-				res.Failf("Equal|symmetry", "a=%+v b=%+v: %v vs %v", va, vb, ab, ba)
+				res.Failf("Equal|symmetry"+how, "a=%+v b=%+v: %v vs %v", va, vb, ab, ba)
 			}
 			if ab != c19RefEqual(va, vb) {
-				res.Failf("Equal|definition", "a=%+v b=%+v: Equal=%v want %v", va, vb, ab, !ab)
+				res.Failf("Equal|definition"+how, "a=%+v b=%+v: Equal=%v want %v", va, vb, ab, !ab)
 			}
 			if len(res.Fail) > 6 {
 				return
@@ -358,7 +438,7 @@ func init() {
 		Scenarios: []engine.ScenarioRunner{
 			&engine.Enum[c19TypeCase]{
 				Name: "closing-table",
-				Rule: "case = incoming type (all 256); Check evaluates CanClose of its 54 grid descriptors (event {1,2} x PTS {100,200,none} x (num,exp) {(1,1),(1,2),(2,1)} x sub-segment {absent,(1,1),(1,2)}) against all 13824 grid descriptors of all 256 open types, i.e. every value of (type, type, event-equal, PTS-equal, num==expected) and of the fields the relation must NOT depend on; plus IsIn/IsOut of the type",
+				Rule: "case = incoming type (all 256); Check evaluates CanClose of its 54 grid descriptors (event {1,2} x PTS {100,200,none} x (num,exp) {(1,1),(1,2),(2,1)} x sub-segment {absent,(1,1),(1,2)}) against all 13824 grid descriptors of all 256 open types, i.e. every value of (type, type, event-equal, PTS-equal, num==expected) and of the fields the relation must NOT depend on; plus IsIn/IsOut of the type; repeated for 8 (incoming, open) realisations: created x moved between signals, signal time carried as pts_time + pts_adjustment 100 (decoded from a reference section where the value is encodable) on either or both sides, and descriptors that got their type by SetTypeID only after having answered CanClose/Equal/IsIn/IsOut under another rule-bearing type (from 0x10 and from 0x35) on either side",
 				Gen: func(r *engine.Run, emit func(c19TypeCase)) {
 					for t := 0; t < 256; t++ {
 						emit(c19TypeCase{t})
@@ -392,7 +472,7 @@ func init() {
 			},
 			&engine.Enum[c19EqCase]{
 				Name: "equality",
-				Rule: "case = one descriptor of the 768-element equality grid (6 types x PTS {100,200,0,none} x event {1,2} x num {1,2} x expected {1,2} x sub-segment {absent,(1,1),(1,2),(2,2)}); Check compares it with every descriptor of an independent object copy of the grid (symmetry, definition, reflexivity iff PTS), checks transitivity through every equal element and congruence against all 13824 descriptors of the closing grid in both argument positions",
+				Rule: "case = one descriptor of the 768-element equality grid (6 types x PTS {100,200,0,none} x event {1,2} x num {1,2} x expected {1,2} x sub-segment {absent,(1,1),(1,2),(2,2)}); Check compares it with every descriptor of four independent object copies of the grid (moved between signals; signal time carried by a non-zero pts_adjustment; retyped after queries from 0x10 / from 0x35) (symmetry, definition, reflexivity iff PTS), checks transitivity through every equal element and congruence against all 13824 descriptors of the closing grid in both argument positions",
 				Gen: func(r *engine.Run, emit func(c19EqCase)) {
 					for i := range c19EqGrid().vals {
 						emit(c19EqCase{i})
